@@ -74,16 +74,19 @@ class Check(PropertyCheck):
     prop = "C33"
     design_ref = "§5 C33"
     level_text = ("Lean theorems about the model of url.hostport (default-port elision, IPv6 brackets), url.parse_authority (its regex "
-                  "transcribed), urllib's netloc reading (hostname/port), url.parse/unparse, Request.url getter/setter, host/port setters and "
-                  "_update_host_and_authority, for ALL hosts of the stated shape, ports and requests (HTTP/1 and HTTP/2, with/without Host header "
-                  "and authority): parseAuthority_hostport and netloc_hostport (what hostport writes is read back as the same host and port by "
-                  "both readers), host_port_edit_keeps_host_header_and_authority_pointing_to_destination (every host/port/url edit, any edit "
-                  "sequence), url_get_set_idempotent_partial (ASCII hosts) + url_get_set_idempotent_counterexample (IDN, F-C33b). Model tied to the "
-                  "real Request objects and url functions differentially.")
-    level_note = ("PARTIAL for IDN hosts: Request.url returns the U-label form which url.parse rejects (F-C33b); proved for hosts whose "
-                  "decoded form is what was assigned (ASCII). urllib's urlsplit (scheme/netloc/path splitting), the IDNA codec, is_valid_host and "
-                  "the authority idna round trip are parameters with stated laws; port 0 (silently replaced by the default port) and URLs with "
-                  "userinfo (dropped) are not counted as valid URLs by the oracle. F-C33a (IPv6 brackets) is fixed in /repo (bdda7e671).")
+                  "transcribed, both alternatives with backtracking), url.parse/unparse, Request.url getter/setter, host/port setters and "
+                  "_update_host_and_authority, for ALL hosts of the stated shape, schemes, ports and requests (HTTP/1 and HTTP/2, with/without "
+                  "Host header and authority): parseDec_decDigits, parseAuthority_hostport (what hostport writes, parse_authority reads back as "
+                  "the same host and port — DNS names, IPv4 and bracketed IPv6 alike), "
+                  "host_port_edit_keeps_host_header_and_authority_pointing_to_destination (any request, every host/port/accepted-url edit), "
+                  "url_get_set_idempotent_partial + url_get_set_idempotent_counterexample (IDN, F-C33b). Model (incl. urllib's netloc reading "
+                  "transcribed) tied to the real Request objects, url.parse and parse_authority differentially.")
+    level_note = ("PARTIAL: url_get_set_idempotent_partial assumes that url.parse reads the URL returned by the getter back into the request's "
+                  "own fields (hypothesis hcanon: holds for ASCII hosts, fails for IDN hosts = F-C33b); that urllib's netloc reading inverts "
+                  "hostport is validated differentially, not proved. urllib's urlparse splitting, the IDNA codec, is_valid_host and the "
+                  "authority idna round trip are parameters; port 0 (silently replaced by the default port) and URLs with userinfo (dropped) "
+                  "are not counted as valid URLs by the oracle; non-ASCII paths are rejected by url.parse by design. F-C33a (IPv6 brackets) is "
+                  "fixed in /repo (bdda7e671).")
     technique = "Lean 4 proof (induction for decimal ports, case analysis of the authority regex) + differential correspondence on Request objects"
     rule = ("url cases: scheme x host form (9 DNS names incl. trailing dot/underscore/upper case/A-label, 3 IPv4, 6 bracketed IPv6, 4 IDN) x "
             "7 ports x 12 paths x 6 queries x 3 fragments assigned to HTTP/1 and HTTP/2 requests with/without Host header and authority, then "
